@@ -80,7 +80,7 @@ Fixpoint xval (h : host) (e : expr) : evres value :=
   | XRange _ a _ b => call_range_value h a b
   | XCall n args => ebind (xvals (xval h) args) (fun vs => call_function h n vs)
   | XNeg e => ebind (xval h e) (fun v => (of_outcome (eval_neg v), []))
-  | XBin b l r => ebind (xval h l) (fun lv => ebind (xval h r) (fun rv => (of_outcome (bin_val b lv rv), [])))
+  | XBin b l r => ebind (xval h l) (fun lv => ebind (xval h r) (fun rv => (bin_res b lv rv, [])))
   | XPar e => xval h e
   end.
 
@@ -551,7 +551,7 @@ Proof.
       * intros rv _.
         assert (act_of (ae b) (la rest) = Some (Reduce (iBin b))) as Hact.
         { destruct Hfol as [H|[a [H Ha]]]; [apply H_bin_red_term; exact H|]. rewrite H. apply H_bin_red_op. exact Ha. }
-        eapply (rl_final h _ _ _ _ _ _ _ _ _ q (of_outcome (bin_val b lv rv), [])); [exact Hact|apply PB|apply pop3|exact Hgo|].
+        eapply (rl_final h _ _ _ _ _ _ _ _ _ q (bin_res b lv rv, [])); [exact Hact|apply PB|apply pop3|exact Hgo|].
         rewrite bin_action. reflexivity.
   - (* parentheses *)
     cbn [xwp] in Hwp. cbn [xtoks xval xsteps app]. rewrite <- app_assoc. cbn [app].
